@@ -189,6 +189,51 @@ def run(ctx):
         elif ey and (ny or nn) and ny + nn + ey < nb:
             bad("`%s` / `!%s` on `%s` (%s): %d + %d hold, %d errors, %d values" % (w, w[1:], base, os.path.basename(f), ny, nn, ey, nb),
                 {"query": "%s %s" % (base, w), "neg": "%s !%s" % (base, w[1:]), "producer": base, "file": f})
+    # every assertion word of the vocabulary as a bare word on two-value stacks of every type pair
+    # (incl. address sets and closures that carry positions): what it lets through is the incoming
+    # stack, value for value and position for position; ?w and !w never both hold
+    corewords = sorted(w for w in voc if w.startswith("?") and ("!" + w[1:]) in voc and not w.startswith(("?DW_", "?AT_", "?TAG_", "?FORM_", "?OP_", "?ATE_", "?LANG_", "?STT_", "?STB_", "?STV_")))
+    VALS = ['1', '"ab"', '[1, 2]', '0 0x100 aset', '0x10 0x20 aset', '0 4 aset 8 12 aset add', '"a"', '[]', '[{10}, {20}, {30}] elem', '[[7], [8]] elem', '"xyz" elem']
+    tq, tmeta = [], []
+    for a in VALS:
+        for b in VALS:
+            P2 = "%s %s" % (a, b)
+            full = not quick or ("aset" in a and "aset" in b) or a == b        # quick: half of the words on pairs of different kinds
+            for w in (corewords if full else [w for k, w in enumerate(corewords) if (k + len(tq)) % 2 == 0]):
+                tq += [P2, "%s %s" % (P2, w), "%s !%s" % (P2, w[1:])]
+                tmeta.append((P2, w))
+    tu = list(dict.fromkeys(tq))
+    def rich(r):
+        """as engine.canon_impl, but values of the other types (address sets, ...) with their contents"""
+        st, evs = engine.canon_impl(r)
+        if st != "DONE":
+            return (st, evs)
+        return (st, ["R[" + " ".join(engine.canon_value(v) if v["t"] in ("c", "s", "q", "clo") else "%s:%s:%d" % (v["t"], json.dumps(v.get("v", v.get("show")), sort_keys=True), v.get("pos", 0))
+                                     for v in e[1]) + "]" for e in r.events if e[0] == "r"])
+    tres = {q: rich(r) for q, r in zip(tu, zw.run_cases([zw.enc(q, t=3, max=200) for q in tu]))}
+    for P2, w in tmeta:
+        rb, ry, rn = tres[P2], tres["%s %s" % (P2, w)], tres["%s !%s" % (P2, w[1:])]
+        if rb[0] != "DONE" or ry[0] != "DONE" or rn[0] != "DONE":
+            continue
+        evaluations += 3
+        base_ = collections.Counter(e for e in rb[1] if e.startswith("R"))
+        yes_ = collections.Counter(e for e in ry[1] if e.startswith("R"))
+        no_ = collections.Counter(e for e in rn[1] if e.startswith("R"))
+        both = (yes_ & no_) if P2.count("{") < 2 else None        # (two closures have no order: documented exception)
+        if (yes_ - base_) or (no_ - base_) or both:
+            bad("`%s %s` / `!%s`: what gets through is not the incoming stack (values, positions), or both hold: %s / %s vs %s"
+                % (P2, w, w[1:], dict(yes_), dict(no_), dict(base_)), {"query": "%s %s" % (P2, w), "neg": "%s !%s" % (P2, w[1:]), "producer": P2})
+    # sub-expression contexts keep positions too: closures and sequences that came out of `elem`
+    for P2 in ('[{10}, {20}, {30}] elem', '[[7], [8], [9]] elem', '"abc" elem', '[1, 2, 3] elem', '[{10}, {20}] elem 5'):
+        for ctxq in ("let X9 := 7;", "?(1)", "!(1 2 ?eq)", "(1 == 1)", "[7] drop", "(|A9| A9)", "dup drop"):
+            if ctxq == "(|A9| A9)" and "{" in P2 and P2.endswith("elem"):
+                continue        # a name bound to a closure applies it
+            tq2 = ["[%s pos]" % P2, "[%s %s pos]" % (P2, ctxq)]
+            r1, r2 = (engine.canon_impl(r) for r in zw.run_cases([zw.enc(q) for q in tq2]))
+            evaluations += 2
+            if r1 != r2:
+                bad("`%s` changes positions: `%s` gives %s, `%s` gives %s" % (ctxq, tq2[0], " ".join(r1[1])[:120], tq2[1], " ".join(r2[1])[:120]),
+                    {"query": tq2[1], "producer": tq2[0]})
     # the same programs against engine model and specification
     stats = {"evaluations": 0, "disagreements": 0, "results_hist": {}, "nontrivial": set()}
     allq = [x for x in uniq if x not in unmodelled]        # the regex engine is not modelled
